@@ -80,11 +80,15 @@ class TDict(Ty):
     def sort(self):
         key = self.name
         if key not in _SORT_CACHE:
-            d = z3.Datatype("D_" + _mangle(key))
+            m = _mangle(key)
+            d = z3.Datatype("D_" + m)
             from . import seqs
 
-            d.declare("mk", ("keys", seqs.theory(self.k.sort()).S), ("val", z3.ArraySort(self.k.sort(), self.v.sort())))
-            _SORT_CACHE[key] = d.create()
+            # constructor/accessor names are unique per type (SMT-LIB text must be unambiguous); python-side aliases below
+            d.declare("mk_" + m, ("keys_" + m, seqs.theory(self.k.sort()).S), ("val_" + m, z3.ArraySort(self.k.sort(), self.v.sort())))
+            srt = d.create()
+            srt.mk, srt.keys, srt.val = srt.constructor(0), srt.accessor(0, 0), srt.accessor(0, 1)
+            _SORT_CACHE[key] = srt
         return _SORT_CACHE[key]
 
 
@@ -152,10 +156,14 @@ class TOpt(Ty):
 
     def sort(self):
         if self.name not in _SORT_CACHE:
-            d = z3.Datatype("O_" + _mangle(self.name))
-            d.declare("none")
-            d.declare("some", ("v", self.t.sort()))
-            _SORT_CACHE[self.name] = d.create()
+            m = _mangle(self.name)
+            d = z3.Datatype("O_" + m)
+            d.declare("none_" + m)
+            d.declare("some_" + m, ("v_" + m, self.t.sort()))
+            srt = d.create()
+            srt.none, srt.some = srt.constructor(0)(), srt.constructor(1)
+            srt.is_none, srt.is_some, srt.v = srt.recognizer(0), srt.recognizer(1), srt.accessor(1, 0)
+            _SORT_CACHE[self.name] = srt
         return _SORT_CACHE[self.name]
 
 
@@ -194,9 +202,12 @@ class TTup(Ty):
 
     def sort(self):
         if self.name not in _SORT_CACHE:
-            d = z3.Datatype("T_" + _mangle(self.name))
-            d.declare("mk", *[(f"f{i}", t.sort()) for i, t in enumerate(self.elems)])
-            _SORT_CACHE[self.name] = d.create()
+            m = _mangle(self.name)
+            d = z3.Datatype("T_" + m)
+            d.declare("mk_" + m, *[(f"f{i}_{m}", t.sort()) for i, t in enumerate(self.elems)])
+            srt = d.create()
+            srt.mk = srt.constructor(0)
+            _SORT_CACHE[self.name] = srt
         return _SORT_CACHE[self.name]
 
 
